@@ -321,14 +321,12 @@ type tvStats struct {
 // translateAndCompare: Go results vs. the TLA+ semantics of what the real goose emitted.
 func translateAndCompare(c *ev.Ctx, tag string, pkgs []tvPackage, mode string) ([]tvDisagreement, tvStats, map[string]string, bool) {
 	var st tvStats
-	var dis []tvDisagreement
 	m, err := newGenModule(c, "mod-"+tag)
 	if err != nil {
 		c.Inconclusive("module: %v", err)
 		return nil, st, nil, false
 	}
 	defer os.RemoveAll(m.dir)
-	byName := map[string]tvPackage{}
 	for _, p := range pkgs {
 		var es []string
 		for _, e := range p.Entries {
@@ -338,52 +336,68 @@ func translateAndCompare(c *ev.Ctx, tag string, pkgs []tvPackage, mode string) (
 			c.Inconclusive("write package: %v", err)
 			return nil, st, nil, false
 		}
-		byName[p.Name] = p
 	}
 	goRes, broken, err := m.runGo()
 	if err != nil {
 		c.Inconclusive("%v", err)
 		return nil, st, nil, false
 	}
-	st.Broken = len(broken)
 	gout := m.runGoose(c)
 	if gout.exit == 2 || strings.Contains(gout.stderr, "goroutine ") {
 		c.Inconclusive("goose crashed on batch %s (see C07):\n%s", tag, tlc.Tail(gout.stderr, 15))
 	}
+	var good []tvPackage
+	for _, p := range pkgs {
+		if _, b := broken[p.Name]; !b {
+			good = append(good, p)
+		}
+	}
+	dis, st2, ok := compareEmittedMode(c, tag, good, goRes, gout.files, gout.stderr, mode)
+	st2.Broken = len(broken)
+	return dis, st2, gout.files, ok
+}
+
+func compareEmitted(c *ev.Ctx, tag string, pkgs []tvPackage, goRes map[string][]goResult, files map[string]string) ([]tvDisagreement, tvStats, bool) {
+	return compareEmittedMode(c, tag, pkgs, goRes, files, "", "seq")
+}
+
+// compareEmittedMode executes the emitted text of every package on the model and compares with the Go results.
+func compareEmittedMode(c *ev.Ctx, tag string, pkgs []tvPackage, goRes map[string][]goResult, files map[string]string, stderr string, mode string) ([]tvDisagreement, tvStats, bool) {
+	var st tvStats
+	var dis []tvDisagreement
+	byName := map[string]tvPackage{}
+	for _, p := range pkgs {
+		byName[p.Name] = p
+	}
 	dir, ok := glSpecDir(c, "spec-gl-"+tag)
 	if !ok {
-		return nil, st, nil, false
+		return nil, st, false
 	}
 	pb, err := os.ReadFile(filepath.Join(c.Verif, "spec", "gooselang", "prelude.v"))
 	if err != nil {
 		c.Inconclusive("prelude: %v", err)
-		return nil, st, nil, false
+		return nil, st, false
 	}
 	pf, err := vparse.ParseFile(string(pb))
 	if err != nil {
 		c.Inconclusive("prelude: %v", err)
-		return nil, st, nil, false
+		return nil, st, false
 	}
 	l := v2tla.New()
 	l.AddFile(pf)
 	expect := map[string]goResult{}
-	texts := map[string]string{}
 	for _, p := range pkgs {
-		if _, isBroken := broken[p.Name]; isBroken {
-			continue
-		}
 		st.Programs++
-		text, have := gout.files[p.Name]
-		texts[p.Name] = text
+		text, have := files[p.Name]
 		if !have {
 			// goose rejected the package: which declaration? report once per package
-			dis = append(dis, tvDisagreement{Pkg: p.Name, Entry: "*", Kind: "rejected", Detail: extractErrors(gout.stderr, p.Name), Keys: keysList(p.Keys)})
+			dis = append(dis, tvDisagreement{Pkg: p.Name, Entry: "*", Kind: "rejected", Detail: extractErrors(stderr, p.Name), Keys: keysList(p.Keys)})
 			continue
 		}
-		prog, err := vparse.ParseFile(text)
-		if err != nil {
-			dis = append(dis, tvDisagreement{Pkg: p.Name, Entry: "*", Kind: "unparsable", Detail: err.Error(), Keys: keysList(p.Keys)})
-			continue
+		prog, perrs := vparse.ParseFileLenient(text)
+		for _, pe := range perrs {
+			// an emitted definition that Coq's grammar (as far as vparse knows it) cannot read
+			dis = append(dis, tvDisagreement{Pkg: p.Name, Entry: pe.Name, Kind: "unparsable", Detail: pe.Err.Error(), Keys: keysList(p.Keys)})
 		}
 		l.Prefix = p.Name + "."
 		l.AddFile(prog)
@@ -391,7 +405,14 @@ func translateAndCompare(c *ev.Ctx, tag string, pkgs []tvPackage, mode string) (
 		for _, d := range prog.Decls {
 			defs[d.Name] = true
 		}
+		wanted := map[string]bool{}
+		for _, e := range p.Entries {
+			wanted[e.Name] = true
+		}
 		for _, gr := range goRes[p.Name] {
+			if !wanted[gr.Name] {
+				continue
+			}
 			if gr.Panic != "" {
 				st.GoPanicked++
 				continue
@@ -409,14 +430,14 @@ func translateAndCompare(c *ev.Ctx, tag string, pkgs []tvPackage, mode string) (
 	}
 	l.Prefix = ""
 	if len(l.P.Tests) == 0 {
-		return dis, st, texts, true
+		return dis, st, true
 	}
 	outs, r, err := gl.Run(dir, l, gl.RunOpts{Mode: mode, Fuel: 400, Workers: 14, Timeout: 20 * time.Minute})
 	st.States, st.Transitions = r.Distinct, r.Generated
 	c.AddTLC(r)
 	if err != nil || r.TLCError || r.TimedOut {
 		c.Inconclusive("TLC failed on batch %s: %v\n%s", tag, err, tlc.Tail(r.Out, 30))
-		return dis, st, texts, false
+		return dis, st, false
 	}
 	seen := map[string]bool{}
 	for _, o := range outs {
@@ -453,7 +474,7 @@ func translateAndCompare(c *ev.Ctx, tag string, pkgs []tvPackage, mode string) (
 			dis = append(dis, tvDisagreement{Pkg: parts[0], Entry: parts[1], Kind: "no-outcome", Detail: "the model produced no outcome (did not terminate within the state bound?)"})
 		}
 	}
-	return dis, st, texts, true
+	return dis, st, true
 }
 
 func keysList(m map[string]bool) []string {
